@@ -6,9 +6,11 @@ that maintenance edits of that kind cannot change a verdict:
   N1  annotations and docstrings are dropped (`def f(a: int) -> bool`, `x: int = 3` -> `x = 3`);
   N2  a single comparison `a > b` / `a >= b` is written `b < a` / `b <= a` (analysis only: evaluation order of the operands is not modelled
       by any rule);
+      `0 == x` / `0 != x` get the constant on the right;
   N3  negations are pushed inwards: `not (a or b)` -> `not a and not b`, `not (a and b)` -> `not a or not b`, `not not a` -> `a`,
       `not a == b` -> `a != b`, `not a is None` -> `a is not None`, `not a in b` -> `a not in b` (not applied to `<`/`<=`: NaN, None);
   N4  a statement whose value is a conditional expression becomes an if-statement:  `x = a if c else b`, `x += ...`, `return ...`;
+  N8  `a, b = x, y` becomes `a = x; b = y` when no target occurs in a later value (applied after N6);
   N5  (see alpha.py) locals are renamed to the spelling of the reference snapshot when their use-signature identifies them;
   N6  (see inline.py) calls of private helpers that do not exist in the reference snapshot are inlined when they are simple enough.
 
@@ -80,6 +82,10 @@ class Normalizer(ast.NodeTransformer):
         if len(node.ops) == 1 and type(node.ops[0]) in FLIP:
             self.counts['flipped'] += 1
             return ast.copy_location(ast.Compare(left=node.comparators[0], ops=[FLIP[type(node.ops[0])]()], comparators=[node.left]), node)
+        # `0 != x` -> `x != 0`: a constant operand of == / != goes to the right
+        if len(node.ops) == 1 and isinstance(node.ops[0], (ast.Eq, ast.NotEq)) and isinstance(node.left, ast.Constant) and not isinstance(node.comparators[0], ast.Constant):
+            self.counts['flipped'] += 1
+            return ast.copy_location(ast.Compare(left=node.comparators[0], ops=[node.ops[0]], comparators=[node.left]), node)
         return node
 
     # N3
@@ -124,6 +130,45 @@ class Normalizer(ast.NodeTransformer):
                 return r
         self.generic_visit(node)
         return node
+
+
+def split_tuple_assignments(tree):
+    """N8: `a, b = x, y` -> `a = x; b = y` when no target name occurs in a later value (the two forms are then equivalent)"""
+    n = [0]
+
+    def names(e):
+        return {x.id for x in ast.walk(e) if isinstance(x, ast.Name)}
+
+    def rec(stmts):
+        out = []
+        for s in stmts:
+            for fld in ('body', 'orelse', 'finalbody'):
+                sub = getattr(s, fld, None)
+                if isinstance(sub, list) and sub and isinstance(sub[0], ast.stmt):
+                    setattr(s, fld, rec(sub))
+            if isinstance(s, ast.Try):
+                for h in s.handlers:
+                    h.body = rec(h.body)
+            if isinstance(s, ast.Assign) and len(s.targets) == 1 and isinstance(s.targets[0], (ast.Tuple, ast.List)) and isinstance(s.value, (ast.Tuple, ast.List)) \
+                    and len(s.targets[0].elts) == len(s.value.elts) and not any(isinstance(x, ast.Starred) for x in list(s.targets[0].elts) + list(s.value.elts)):
+                ts, vs = s.targets[0].elts, s.value.elts
+                safe = all(isinstance(t, ast.Name) for t in ts)
+                for i, t in enumerate(ts):
+                    for v in vs[i + 1:]:
+                        if isinstance(t, ast.Name) and t.id in names(v):
+                            safe = False
+                if safe:
+                    n[0] += 1
+                    for t, v in zip(ts, vs):
+                        out.append(ast.copy_location(ast.Assign(targets=[t], value=v), s))
+                    continue
+            out.append(s)
+        return out
+    for node in ast.walk(tree):
+        if isinstance(node, (ast.FunctionDef, ast.AsyncFunctionDef)):
+            node.body = rec(node.body)
+    ast.fix_missing_locations(tree)
+    return n[0]
 
 
 def normalize(tree):
